@@ -21,7 +21,7 @@ fn scenario(words: &[u16]) -> Scenario {
     let mut cas: Vec<Ca> = Vec::new();
     for i in 0..chain_len.min(9) {
         let versions = vec![decode_version(&mut d, &p, 0)];
-        cas.push(Ca { parent: if i == 0 { None } else { Some(i - 1) }, key: i, module: d.below(2), not_after: 86400 * 365, cert_fault: None, versions, extra_res: None });
+        cas.push(Ca { parent: if i == 0 { None } else { Some(i - 1) }, key: i, module: d.below(2), not_after: 86400 * 365, cert_fault: None, versions, extra_res: None, ta_alt: vec![] });
     }
     // extra children: plain siblings or cycle / loop certificates
     let extra = d.below(5);
@@ -39,15 +39,15 @@ fn scenario(words: &[u16]) -> Scenario {
             _ => Some(CertFault::CycleTo(up)),
         };
         let versions = vec![decode_version(&mut d, &p, 0)];
-        cas.push(Ca { parent: Some(parent), key: i, module: d.below(2), not_after: 86400 * 365, cert_fault, versions, extra_res: None });
+        cas.push(Ca { parent: Some(parent), key: i, module: d.below(2), not_after: 86400 * 365, cert_fault, versions, extra_res: None, ta_alt: vec![] });
         // cycles come in pairs so that a missing loop check multiplies work at every level
         if matches!(cert_fault, Some(CertFault::CycleTo(_))) && cas.len() < 14 {
             let j = cas.len();
             let versions = vec![decode_version(&mut d, &p, 0)];
-            cas.push(Ca { parent: Some(parent), key: j, module: 0, not_after: 86400 * 365, cert_fault, versions, extra_res: None });
+            cas.push(Ca { parent: Some(parent), key: j, module: 0, not_after: 86400 * 365, cert_fault, versions, extra_res: None, ta_alt: vec![] });
         }
     }
-    let steps = vec![Step { publish: vec![0; cas.len()], fail_modules: vec![], offline: false, stale: None }];
+    let steps = vec![Step { publish: vec![0; cas.len()], fail_modules: vec![], offline: false, stale: None, foreign_tal_key: vec![], ta_serve: vec![] }];
     Scenario { cfg, cas, steps }
 }
 
